@@ -21,6 +21,7 @@ func main() {
 		dkgcheck.ReplayFile(run, "C07")
 		return
 	}
+	dkgcheck.SizeSweep(run, "C07") // cheap, first: never starved by the exploration budget
 	dkgcheck.Run(run, "C07", dkgcheck.Jobs(run, "C07"))
 	dkgcheck.Describe(run, "C07")
 	run.Finish()
